@@ -6,6 +6,7 @@ import RevalModel.Lemmas.Table
 import RevalModel.Lemmas.NoneType
 import RevalModel.Lemmas.Calendar
 import RevalModel.Lemmas.DecExact
+import RevalModel.Lemmas.Strings
 
 namespace Reval.C02
 
@@ -176,6 +177,49 @@ theorem eq_composes (env : Env) (rp : List Nat) (l r : Expr) (st st1 st2 : St) (
     eval env rp (.neq l r) st = (.ok (.bool (!Value.peq a b)), st2, ev ++ ev2) := by
   constructor <;> (simp only [eval, hl]; split <;> simp_all)
 
+/-- `contains` on two strings is the substring relation: true exactly when the right operand occurs in the left one as a
+    contiguous piece (the empty string occurs in every string), false exactly when it does not -/
+theorem string_contains_is_substring (o : Oracle) (s t : Str) :
+    (applyBin o .contains (.str s) (.str t) = .ok (.bool true) ↔ ∃ pre post, s = pre ++ t ++ post) ∧
+    (applyBin o .contains (.str s) (.str t) = .ok (.bool false) ↔ ¬ ∃ pre post, s = pre ++ t ++ post) := by
+  have h : applyBin o .contains (.str s) (.str t) = .ok (.bool (Str.isInfix t s)) := by simp [applyBin, Impl.contains]
+  rw [h, ← Str.isInfix_iff]
+  cases Str.isInfix t s <;> simp
+
+/-- `trim` returns the middle of the string: what is cut off on either side is white space only (Unicode White_Space),
+    the result neither starts nor ends with a white-space character, and nothing inside is touched -/
+theorem trim_is_the_middle (o : Oracle) (s : Str) : ∃ l m r, s = l ++ m ++ r ∧
+    applyUn o .trim (.str s) = .ok (.str m) ∧ l.all Str.isWhite = true ∧ r.all Str.isWhite = true ∧
+    (∀ c u, m = c :: u → Str.isWhite c = false) ∧ (∀ c, m.getLast? = some c → Str.isWhite c = false) := by
+  obtain ⟨l, r, h1, h2, h3, h4, h5⟩ := Str.trim_spec s
+  exact ⟨l, Str.trim s, r, h1, by simp [applyUn, Impl.trim], h2, h3, h4, h5⟩
+
+/-- trimming a trimmed string changes nothing -/
+theorem trim_idempotent (o : Oracle) (s m : Str) (h : applyUn o .trim (.str s) = .ok (.str m)) :
+    applyUn o .trim (.str m) = .ok (.str m) := by
+  simp only [applyUn, Impl.trim, Res.ok.injEq, Value.str.injEq] at h ⊢
+  rw [← h]; exact Str.trim_idempotent s
+
+/-- `int("…")`: succeeds exactly on an optional sign followed by at least one ASCII digit and nothing else (no white
+    space, no separators, no radix prefix) whose number lies within i128, and yields that number; every other string is
+    an invalid-cast error carrying the string -/
+theorem int_of_string_exact (o : Oracle) (s : Str) :
+    (∀ n, applyUn o .toInt (.str s) = .ok (.int n) ↔
+      ∃ (neg : Bool) (ds : Str), (s = ds ∧ neg = false ∨ s = '+' :: ds ∧ neg = false ∨ s = '-' :: ds ∧ neg = true) ∧
+        ds ≠ [] ∧ ds.all Str.isDigit = true ∧ n = (if neg then -(Str.ofDigits ds : Int) else (Str.ofDigits ds : Int)) ∧
+        I128.inRange n = true) ∧
+    ((∀ n, applyUn o .toInt (.str s) ≠ .ok (.int n)) → applyUn o .toInt (.str s) = .err (.invalidCast (.str s))) := by
+  constructor
+  · intro n
+    rw [← parseI128_spec]
+    simp only [applyUn, Impl.toInt]
+    cases Str.parseI128 s <;> simp
+  · intro h
+    simp only [applyUn, Impl.toInt] at h ⊢
+    cases hp : Str.parseI128 s with
+    | none => rfl
+    | some n => rw [hp] at h; exact absurd rfl (h n)
+
 /-! non-vacuity -/
 example : applyBin Oracle.empty .sub (.int 7) (.int 9) = .ok (.int (-2)) := by decide
 example : applyBin Oracle.empty .rem (.int (-7)) (.int 2) = .ok (.int (-1)) := by decide
@@ -184,5 +228,9 @@ example : applyUn Oracle.empty .hour (.duration (7200 * Time.nsPerSec)) = .ok (.
 example : Time.ValidDate 2000 2 29 ∧ Time.ValidDate (-1) 12 31 ∧ ¬ Time.ValidDate 1900 2 29 := by decide
 example : Time.daysFromCivil 2000 3 1 = 11017 := by decide
 example : applyUn Oracle.empty .month (.dateTime (951782400 * Time.nsPerSec)) = .ok (.int 2) := by decide   -- 2000-02-29
+
+example : Str.trim "\t a b  ".toList = "a b".toList := by decide
+example : Str.isInfix "".toList "abc".toList = true ∧ Str.isInfix "bc".toList "abc".toList = true ∧ Str.isInfix "ac".toList "abc".toList = false := by decide
+example : applyUn Oracle.empty .toInt (.str "-12".toList) = .ok (.int (-12)) ∧ applyUn Oracle.empty .toInt (.str " 12".toList) = .err (.invalidCast (.str " 12".toList)) := by decide
 
 end Reval.C02
